@@ -82,6 +82,46 @@ theorem C03_ieee_round_self (f : Fmt) (hp : 1 ≤ f.p) :
     (∀ a b k, 0 < b → roundMag f a b = some k → Rep f k) :=
   ⟨fun _ hk => roundMag_self f hk, fun _ _ _ hb h => roundMag_rep f hp hb h⟩
 
+/-- **C03, `LeakilyQuantizedDistribution` from the contract of the caller's `Distribution`**: if the
+    values `distribution(s - 0.5)` (floats of the format: `cdf s`) lie in `[0, 1]` and do not
+    decrease along the support — what a cumulative distribution function is — then the quantised
+    model is `WellFormed` for every hint function, on IEEE arithmetic, with no hypothesis about the
+    integer sequence.  (`free < 2^p`: `free_weight` is converted with the lossless `Into<F>`, so
+    `Probability` has at most `p` bits: `u32`/`f64`, `u16`/`f32`.) -/
+theorem C03_ieee_leaky_wellFormed (f : Fmt) (hp : 1 ≤ f.p) (hM : f.M ≤ f.expMask - 2) {m : LQ}
+    (ok : m.Ok) (hfree : m.free < 2 ^ f.p) (cdf : Int → SF)
+    (h01 : ∀ s, m.min < s → s ≤ m.max + 1 → SF.Unit01 f (cdf s))
+    (hmono : ∀ s, m.min < s → s < m.max → SF.nnLe (cdf s) (cdf (s + 1))) (hint : Nat → Int) :
+    (leakyModel m (fun s => f.toUInt m.B (f.mul (f.ofNat m.free) (cdf s))) hint).WellFormed m.P := by
+  have hB : m.free < 2 ^ m.B := by
+    have h1 := ok.hfree
+    have h2 : 2 ^ m.P ≤ 2 ^ m.B := Nat.pow_le_pow_right (by decide) ok.hPB
+    have h3 := two_pow_pos' m.P
+    omega
+  exact (C03_leaky_wellFormed ok (leaky_gok_of_cdf f hp hM hfree hB cdf h01 hmono) hint).1
+
+/-- non-vacuity: a step-shaped CDF `(s + 3) / 8` (exact `binary64` values) on the support `-3..=3`
+    at `i8`/`u16`/`P = 12` meets the hypotheses -/
+example : (leakyModel exLQ (fun s => binary64.toUInt exLQ.B (binary64.mul (binary64.ofNat exLQ.free)
+    (.fin false ((s + 3).toNat * 2 ^ (binary64.M - 3))))) (fun _ => 0)).WellFormed exLQ.P := by
+  apply C03_ieee_leaky_wellFormed binary64 (by decide) (by decide) exLQ_ok (by decide)
+  · intro s h1 h2
+    have h1' : (-3 : Int) < s := h1
+    have h2' : s ≤ 3 + 1 := h2
+    show (s + 3).toNat * 2 ^ (binary64.M - 3) ≤ 2 ^ binary64.M
+    have : (s + 3).toNat ≤ 8 := by omega
+    calc (s + 3).toNat * 2 ^ (binary64.M - 3) ≤ 8 * 2 ^ (binary64.M - 3) := Nat.mul_le_mul_right _ this
+      _ = 2 ^ (binary64.M - 3 + 3) := by rw [Nat.pow_add, Nat.mul_comm]
+      _ = 2 ^ binary64.M := congrArg (2 ^ ·) (by decide : binary64.M - 3 + 3 = binary64.M)
+  · intro s h1 h2
+    have h1' : (-3 : Int) < s := h1
+    show (s + 3).toNat * 2 ^ (binary64.M - 3) ≤ (s + 1 + 3).toNat * 2 ^ (binary64.M - 3)
+    apply Nat.mul_le_mul_right
+    omega
+
+/-- both formats the crate uses satisfy the side condition on the exponent range -/
+example : binary32.M ≤ binary32.expMask - 2 ∧ binary64.M ≤ binary64.expMask - 2 := by decide
+
 /-! ### non-vacuity: the D4 `f32` table is accepted by the software model, bit for bit -/
 
 /-- `[70.591324, 0.4555307, 49.606285, 0.45611787, 0.0]` as `binary32` bit patterns -/
@@ -115,5 +155,6 @@ end CV.Quant
 #print axioms CV.Quant.C03_ieee_f32_f64
 #print axioms CV.Quant.C03_ieee_round_mono
 #print axioms CV.Quant.C03_ieee_round_self
+#print axioms CV.Quant.C03_ieee_leaky_wellFormed
 #print axioms CV.Quant.d4soft_accepted
 #print axioms CV.Quant.d4soft_h
